@@ -27,7 +27,7 @@ theorem fixLong_ok (fix : Option Nat) (dt dt' : DType) :
 theorem checkAliData_ok (fix : Option Nat) (T : Nat) (a a' : AliData) :
     checkAliData fix T a = .ok a' ↔ a' = repairAliData fix T a ∧ a'.is1d ∧ a'.lenIs T := by
   cases a with
-  | nd s => simp [checkAliData, repairAliData]; intro h; subst h; simp [AliData.is1d]
+  | nd s fl => simp [checkAliData, repairAliData]; intro h; subst h; simp [AliData.is1d]
   | vec v =>
     cases fix with
     | none =>
@@ -822,7 +822,7 @@ theorem repairUtt_of_ok (fix : Option Nat) (u : Utt) (h : UttOk u) : repairUtt f
         and_false, ite_self]
       congr
       cases data with
-      | nd s => rfl
+      | nd s fl => rfl
       | vec v =>
         simp only [AliData.lenIs] at h4
         cases fix with
@@ -979,6 +979,91 @@ theorem run_err (fix : Option Nat) (st : St) (d d' : Dir) (e : Err)
           rw [← g1, ← g4]
           exact ⟨g2, g3, h4⟩
 
+/-- `FileWise` is reflexive: an untouched utterance is file-wise "the original". -/
+theorem FileWise.refl (fix : Option Nat) (u : Utt) : FileWise fix u u :=
+  ⟨Or.inl rfl, Or.inl rfl, Or.inl rfl⟩
+
+/-- The fully repaired utterance is file-wise "the repair". -/
+theorem FileWise.repaired (fix : Option Nat) (u : Utt) : FileWise fix u (repairUtt fix u) :=
+  ⟨Or.inr rfl, Or.inr rfl, Or.inr rfl⟩
+
+/-- Whatever a run leaves on disk — raised or not — is, utterance by utterance and file by file, the
+original or its documented repair (same number of utterances, same order). -/
+theorem run_filewise (fix : Option Nat) (st : St) (d : Dir) :
+    (run fix st d).1.length = d.length
+    ∧ ∀ (i : Nat) (u u' : Utt), d[i]? = some u → (run fix st d).1[i]? = some u' → FileWise fix u u' := by
+  induction d generalizing st with
+  | nil => exact ⟨rfl, fun i u u' h => by simp at h⟩
+  | cons v vs ih =>
+    unfold run
+    cases hs : stepUtt fix st v with
+    | mk v1 res =>
+      have hfw := stepUtt_filewise _ _ _ _ _ hs
+      cases res with
+      | error e =>
+        refine ⟨rfl, ?_⟩
+        intro i u u' h1 h2
+        cases i with
+        | zero =>
+          simp only [List.getElem?_cons_zero, Option.some.injEq] at h1 h2
+          subst h1 h2; exact hfw
+        | succ j =>
+          simp only [List.getElem?_cons_succ] at h1 h2
+          rw [h1] at h2; cases h2
+          exact FileWise.refl _ _
+      | ok st1 =>
+        obtain ⟨ih1, ih2⟩ := ih st1
+        refine ⟨by simp only [List.length_cons, ih1], ?_⟩
+        intro i u u' h1 h2
+        cases i with
+        | zero =>
+          simp only [List.getElem?_cons_zero, Option.some.injEq] at h1 h2
+          subst h1 h2; exact hfw
+        | succ j =>
+          simp only [List.getElem?_cons_succ] at h1 h2
+          exact ih2 j u u' h1 h2
+
+/-- `run_err`, and the utterance it singles out is the offending one: the repaired prefix passes,
+the repaired prefix followed by the repaired `u` does not. -/
+theorem run_err_offender (fix : Option Nat) (st : St) (d d' : Dir) (e : Err)
+    (h : run fix st d = (d', some e)) :
+    ∃ pre u post u', d = pre ++ u :: post ∧ d' = pre.map (repairUtt fix) ++ u' :: post
+      ∧ FileWise fix u u' ∧ Chain st (pre.map (repairUtt fix))
+      ∧ ¬ Chain st ((pre ++ [u]).map (repairUtt fix)) := by
+  induction d generalizing st d' with
+  | nil => simp [run] at h
+  | cons u us ih =>
+    unfold run at h
+    cases hs : stepUtt fix st u with
+    | mk u1 res =>
+      rw [hs] at h
+      cases res with
+      | error e1 =>
+        simp only [Prod.mk.injEq, Option.some.injEq] at h
+        obtain ⟨rfl, rfl⟩ := h
+        refine ⟨[], u, us, u1, rfl, rfl, stepUtt_filewise _ _ _ _ _ hs, trivial, ?_⟩
+        intro hc
+        simp only [List.nil_append, List.map_cons, List.map_nil, Chain] at hc
+        have := (stepUtt_ok fix st (st.next (repairUtt fix u)) u (repairUtt fix u)).2
+          ⟨rfl, hc.1, hc.2.1, rfl⟩
+        rw [hs] at this
+        cases this
+      | ok st1 =>
+        simp only [Prod.mk.injEq] at h
+        obtain ⟨rfl, hr⟩ := h
+        have hrun : run fix st1 us = ((run fix st1 us).1, some e) := by rw [← hr]
+        obtain ⟨pre, v, post, v', h1, h2, h3, h4, h5⟩ := ih _ _ hrun
+        obtain ⟨g1, g2, g3, g4⟩ := (stepUtt_ok _ _ _ _ _).1 hs
+        refine ⟨u :: pre, v, post, v', by rw [h1]; rfl, ?_, h3, ?_, ?_⟩
+        · rw [h2, g1]; rfl
+        · simp only [List.map_cons, Chain]
+          rw [← g1, ← g4]
+          exact ⟨g2, g3, h4⟩
+        · intro hc
+          simp only [List.cons_append, List.map_cons, Chain] at hc
+          rw [← g1, ← g4] at hc
+          exact h5 hc.2.2
+
 /-- When the token loop of the report finishes, no token id was negative. -/
 theorem refInfo_nonneg (info : Bool) (acc acc' : Acc) (rows : List Row)
     (h : refInfo info acc rows = .ok acc') : ∀ r ∈ rows, 0 ≤ r.tok := by
@@ -1067,37 +1152,32 @@ theorem infoStep_ok (fix : Option Nat) (st st' : St) (acc acc' : Acc) (u u' : Ut
         rw [ha] at h
         simp only [Except.map]
         dsimp only at h ⊢
-        cases had : a'.data with
-        | nd sh => rw [had] at h; cases h
-        | vec v =>
-          rw [had] at h
-          dsimp only at h
-          split at h
-          · cases h
-          · rename_i acc2 hai
-            cases ref with
-            | none => dsimp only at h ⊢; cases h; rfl
-            | some r =>
+        split at h
+        · cases h
+        · rename_i acc2 hai
+          cases ref with
+          | none => dsimp only at h ⊢; cases h; rfl
+          | some r =>
+            dsimp only at h ⊢
+            cases hr : checkRef fix f'.T st1.refIs2d r with
+            | error e => rw [hr] at h; cases h
+            | ok q =>
+              obtain ⟨r', i2⟩ := q
+              rw [hr] at h
               dsimp only at h ⊢
-              cases hr : checkRef fix f'.T st1.refIs2d r with
-              | error e => rw [hr] at h; cases h
-              | ok q =>
-                obtain ⟨r', i2⟩ := q
-                rw [hr] at h
-                dsimp only at h ⊢
-                cases hrows : r'.data.infoRows with
-                | none => rw [hrows] at h; cases h
-                | some rows =>
-                  rw [hrows] at h
-                  dsimp only at h
-                  split at h
-                  · cases h
-                  · rename_i acc3 hri
-                    cases h
-                    have : tokCheck r' = .ok () := by
-                      rw [tokCheck_ok]
-                      exact refInfo_toks _ _ _ _ _ hrows hri
-                    rw [this]
+              cases hrows : r'.data.infoRows with
+              | none => rw [hrows] at h; cases h
+              | some rows =>
+                rw [hrows] at h
+                dsimp only at h
+                split at h
+                · cases h
+                · rename_i acc3 hri
+                  cases h
+                  have : tokCheck r' = .ok () := by
+                    rw [tokCheck_ok]
+                    exact refInfo_toks _ _ _ _ _ hrows hri
+                  rw [this]
 
 theorem infoLoop_ok (fix : Option Nat) (st : St) (acc acc' : Acc) (d d' : Dir)
     (h : infoLoop true fix st acc d = (d', .ok acc')) : run fix st d = (d', none) := by
